@@ -38,8 +38,8 @@ def setup_engine(E):
     E.I.open_hook = _open_hook
 
 
-def program(B):
-    res = shapes.resolver(B)
+def program(B, rom_type="low_rom"):
+    res = shapes.resolver(B, rom_type=rom_type)
     parser = B.inst("a816.parse.mzparser.MZParser", resolver=res)
     return B.inst("a816.program.Program", resolver=res, logger=B.lift(__import__("logging").getLogger("x816")), dump_symbols=False, parser=parser, label_pass_addresses=B.list([]))
 
@@ -81,12 +81,12 @@ def cases(E):
     for outcome in (0, 7):
         for mp in (None, "low", "low2", "high"):
             cs.append(Case(H + "assemble_contract", f"callee {'returns a status' if outcome == 0 else 'raises OSError'},mapping={mp}",
-                           lambda B, outcome=outcome, mp=mp: {"program": program(B), "status": B.int("status"), "outcome": outcome, "mapping": mp},
+                           lambda B, outcome=outcome, mp=mp: {"program": program(B, "high_rom" if mp is None else "low_rom"), "status": B.int("status"), "outcome": outcome, "mapping": mp},
                            target=[P + "assemble"], overrides=OVR_TOP))
         for mapping in (None, "low", "high"):
             for copier in (False, True):
                 cs.append(Case(H + "assemble_as_patch_contract", f"outcome={outcome},mapping={mapping},copier={copier}",
-                               lambda B, outcome=outcome, mapping=mapping, copier=copier: {"program": program(B), "status": B.int("status"), "outcome": outcome,
+                               lambda B, outcome=outcome, mapping=mapping, copier=copier: {"program": program(B, "high_rom" if mapping is None else "low_rom"), "status": B.int("status"), "outcome": outcome,
                                                                                           "mapping": mapping, "copier": copier},
                                target=[P + "assemble_as_patch"], overrides=OVR_TOP))
     for pe in (None, "syntax error"):
